@@ -76,8 +76,9 @@ class Columns(JupyterMixin):
         column_count = len(renderables)
 
         get_measurement = Measurement.get
+        # the grid gives every column at least one cell, even for an empty renderable
         renderable_widths = [
-            get_measurement(console, renderable, max_width).maximum
+            max(1, get_measurement(console, renderable, max_width).maximum)
             for renderable in renderables
         ]
         if self.equal:
